@@ -492,6 +492,26 @@ pub fn c05_case(rng: &mut Rng) -> CaseOut {
 
 // ------------------------------------------------------------------------------------------- C04
 
+/// re-executes the `add T` / `union A = B` lines of a setup log on a new e-graph
+fn replay_log(log: &[String]) -> Option<EGraph<LSym>> {
+    let mut eg: EGraph<LSym> = EGraph::default();
+    guard(|| {
+        for l in log {
+            if let Some(t) = l.strip_prefix("add ") {
+                eg.add_expr(RecExpr::parse(t).unwrap());
+            } else if let Some(u) = l.strip_prefix("union ") {
+                if let Some((a, b)) = u.split_once(" = ") {
+                    let x = eg.add_expr(RecExpr::parse(a).unwrap());
+                    let y = eg.add_expr(RecExpr::parse(b).unwrap());
+                    eg.union(&x, &y);
+                }
+            }
+        }
+    })
+    .ok()?;
+    Some(eg)
+}
+
 fn no_redundancy(eg: &EGraph<LSym>) -> bool {
     for i in eg.ids() {
         let cs = eg.slots(i);
@@ -762,6 +782,15 @@ pub fn c04_case(rng: &mut Rng) -> CaseOut {
             }
         }
         log.push(format!("rules of the call, in order: {}", names.join(" | ")));
+    }
+    // the same rule values applied to another e-graph first (built by the same operations, so that its class ids and slots
+    // coincide with those of the judged one): a rule value must not carry anything over from one e-graph to the next
+    if rng.chance(1, 3) {
+        if let Some(mut decoy) = replay_log(&log) {
+            let _ = guard(|| apply_rewrites(&mut decoy, &rws));
+            out.inc("plantings_after_the_rule_values_were_used_on_another_egraph");
+            log.push("(the rule values were applied to an identically built e-graph first)".into());
+        }
     }
     if let Err(p) = guard(|| apply_rewrites(&mut eg, &rws)) {
         out.fail(Fail::panic("panic-in-apply", &p, "apply_rewrites", cj));
